@@ -625,17 +625,67 @@ def rule_adapters(ctx):
     ctx.ob("twisted dataReceived forwards the chunk to _dataReceived", len(cs) == 1 and [norm.text(a) for a in cs[0].args] == [tw.params()[1]], "changed", tw.loc())
     ai = ctx.program.cls("autobahn.asyncio.websocket.WebSocketAdapterProtocol")
     dr = ai.methods["data_received"]
-    ok = any(norm.text(c.func) == "self.receive_queue.append" and [norm.text(a) for a in c.args] == [dr.params()[1]] for c in calls_in(dr.node))
-    ctx.ob("asyncio data_received enqueues the chunk at the tail", ok, "receive queue append changed", dr.loc())
+    # the asyncio receive queue, decided cell-wise: every chunk is appended at the tail whatever the state of the waiter; the waiter is
+    # woken once; the consumer hands the queued chunks to _dataReceived in arrival order and re-arms itself
+    from ..core.tiny import Tiny, Sym
+    import itertools
+
+    class _Deque(list):
+        def popleft(self):
+            return self.pop(0)
+
+        def appendleft(self, x):
+            self.insert(0, x)
+    probs = []
+    try:
+        for done, queued in itertools.product((True, False), (0, 1, 2)):
+            woke = []
+            q = _Deque(Sym(f"earlier-chunk-{i}") for i in range(queued))
+            before = list(q)
+            chunk = Sym("this-chunk")
+            waiter = Sym("waiter", methods={"done": lambda: done, "set_result": lambda v=None: woke.append(v), "cancelled": lambda: False})
+            t = Tiny({"self": Sym("adapter"), "self.receive_queue": q, "self.waiter": waiter, dr.params()[1]: chunk}, default_call=lambda f_, a_, k_=None: Sym(f"<{f_}>"))
+            r = t.run([x for x in dr.node.body if not (isinstance(x, ast.Expr) and isinstance(x.value, ast.Constant))])
+            cell = f"waiter {'already woken' if done else 'waiting'}, {queued} chunk(s) queued"
+            if r[0] not in ("fall", "return") or list(t.env["self.receive_queue"]) != before + [chunk]:
+                probs.append(f"{cell}: queue afterwards {list(t.env['self.receive_queue'])} ({r[0]}), expected the chunk appended at the tail")
+            elif (len(woke) == 1) != (not done) or len(woke) > 1:
+                probs.append(f"{cell}: waiter woken {len(woke)} time(s)")
+        ctx.ob("asyncio data_received enqueues every chunk at the tail and wakes the consumer once [6 cells]", not probs, "; ".join(probs[:2]), dr.loc())
+    except AnalysisError as e:
+        raise AnalysisError(f"[C01.6-adapter-agreement] asyncio data_received outside the modelled subset: {e}")
     cons = ai.methods["_consume"]
     proc = cons.nested().get("process")
     ctx.require(proc is not None, "asyncio _consume.process closure not found")
-    pops = [c for c in calls_in(proc.node) if norm.text(c.func) == "self.receive_queue.popleft"]
-    fw = [c for c in calls_in(proc.node) if self_call(c, "_dataReceived")]
-    ok = len(pops) == 1 and len(fw) == 1 and isinstance(fw[0].args[0], ast.Name)
-    ctx.ob("asyncio receive queue drained from the head into _dataReceived", ok, "asyncio receive path changed", cons.loc())
-    uses = [n for f in [dr, cons, proc, ai.methods["connection_made"]] for n in ast.walk(f.node) if isinstance(n, ast.Attribute) and n.attr == "receive_queue"]
-    ctx.ob("asyncio receive_queue only appended / popleft", len(uses) >= 3, "receive queue uses changed", ai.loc())
+    probs = []
+    try:
+        for n_, has_tr in itertools.product((0, 1, 3), (True, False)):
+            got, rearm = [], []
+            q = _Deque(Sym(f"chunk-{i}") for i in range(n_))
+            order = list(q)
+
+            def default(f_, a_, k_=None):
+                if f_ == "self._dataReceived":
+                    got.append(a_[0] if a_ else None)
+                    return None
+                if f_ == "self._consume":
+                    rearm.append(1)
+                    return None
+                return Sym(f"<{f_}>")
+            t = Tiny({"self": Sym("adapter"), "self.receive_queue": q, "self.transport": Sym("transport") if has_tr else None, proc.params()[0]: None}, default_call=default)
+            r = t.run([x for x in proc.node.body if not (isinstance(x, ast.Expr) and isinstance(x.value, ast.Constant))])
+            cell = f"{n_} chunk(s) queued, transport {'up' if has_tr else 'gone'}"
+            if r[0] not in ("fall", "return") or list(t.env["self.receive_queue"]):
+                probs.append(f"{cell}: {r[0]}, queue left {list(t.env['self.receive_queue'])}")
+            elif has_tr and not (len(got) == n_ and all(a is b_ for a, b_ in zip(got, order))):
+                probs.append(f"{cell}: _dataReceived got {got}, expected {order}")
+            elif not has_tr and got:
+                probs.append(f"{cell}: data delivered after the transport is gone")
+            elif len(rearm) != 1:
+                probs.append(f"{cell}: consumer re-armed {len(rearm)} times")
+        ctx.ob("asyncio consumer hands the queued chunks to _dataReceived in arrival order, then re-arms itself [6 cells]", not probs, "; ".join(probs[:2]), cons.loc())
+    except AnalysisError as e:
+        raise AnalysisError(f"[C01.6-adapter-agreement] asyncio _consume.process outside the modelled subset: {e}")
 
 
 def run(ctx):
